@@ -608,9 +608,12 @@ func NewRaft(conf *Config, fsm FSM, logs LogStore, stable StableStore, snaps Sna
 	}
 
 	// Scan through the log for any configuration change entries.
+	// The scan starts right after the snapshot even when committed logs were
+	// just replayed into the FSM: replaying applies entries but does not update
+	// r.configurations, so configuration entries at or below the recovered
+	// commit index would otherwise be skipped.
 	snapshotIndex, _ := r.getLastSnapshot()
-	lastappliedIndex := r.getLastApplied()
-	for index := max(snapshotIndex, lastappliedIndex) + 1; index <= lastLog.Index; index++ {
+	for index := snapshotIndex + 1; index <= lastLog.Index; index++ {
 		var entry Log
 		if err := r.logs.GetLog(index, &entry); err != nil {
 			r.logger.Error("failed to get log", "index", index, "error", err)
